@@ -37,7 +37,7 @@ CONFIGS_THOROUGH = dict(CONFIGS, **{"tiny-eps": {"EPSILON": "1E-6", "NUMERIC_PRE
 EPS = Fraction(float(os.environ.get("EPSILON", 0.0001)))
 DIGITS = int(os.environ.get("NUMERIC_PRECISION", 4))
 
-DOM = {"name": "d", "typed": True, "types": [["t", "object"]], "constants": [],
+DOM = {"name": "d", "typed": True, "types": [["t", "object"]], "constants": [["k", "t"]],
        "predicates": [["r", []]],
        "functions": [["f", [["?a", "t"]]], ["g", []], ["h", [["?a", "t"], ["?b", "t"]]]],
        "actions": []}
@@ -53,7 +53,9 @@ def F(x):
 
 def make_state(vals):
     """vals: dict fluent-key-string -> number string.  Values are the floats the library will see."""
-    keys = [("f", "a"), ("f", "b"), ("g",), ("h", "a", "b"), ("h", "b", "a"), ("h", "a", "a"), ("h", "b", "b")]
+    keys = [("f", "a"), ("f", "b"), ("g",), ("h", "a", "b"), ("h", "b", "a"), ("h", "a", "a"), ("h", "b", "b"),
+            # ... and over the domain constant k
+            ("f", "k"), ("h", "k", "a"), ("h", "a", "k"), ("h", "k", "b"), ("h", "b", "k")]
     fl = {}
     for k in keys:
         v = vals.get(" ".join(k), "0")
@@ -327,7 +329,7 @@ def validate_expr(e):
         validate_expr(e[2])
         return
     sig = {"f": 1, "g": 0, "h": 2}
-    if e[0] not in sig or len(e) - 1 != sig[e[0]] or any(t not in ("?x", "?y") for t in e[1:]) or len(set(e[1:])) != len(e) - 1:
+    if e[0] not in sig or len(e) - 1 != sig[e[0]] or any(t not in ("?x", "?y", "k") for t in e[1:]) or len(set(e[1:])) != len(e) - 1:
         raise pddl.Invalid("function term")
 
 
@@ -348,6 +350,23 @@ def gen_expr(ch, depth):
     return [ch.choice(["+", "-", "*", "/", "-", "/"]), gen_expr(ch, depth - 1), gen_expr(ch, depth - 1)]
 
 
+def with_constant(case, side):
+    """One function term of the case's expression names the domain constant k, before or after a parameter; the
+    fluents over k get values of their own."""
+    terms = [x for x in pddl.walk(case["expr"]) if x and x[0] in ("f", "h")]
+    if not terms:
+        return case
+    x = side.choice(terms)
+    if x[0] == "f":
+        x[:] = ["f", "k"]
+    else:
+        x[:] = side.choice([["h", "k", x[2]], ["h", x[1], "k"], ["h", "k", x[1]]])
+    pool = ["7", "-3", "0.5", "12", "-0.75", "2", "40", "1.25"]
+    for key in ("f k", "h k a", "h a k", "h k b", "h b k"):
+        case["vals"][key] = side.choice(pool)
+    return case
+
+
 def gen_vals(ch):
     def v():
         if ch.flag(0.06):
@@ -363,7 +382,9 @@ def gen(ch, tier):
         e = gen_expr(ch, 4)
         if isinstance(e, str):
             e = ["+", e, ["g"]]
-        return {"kind": "eval", "expr": e, "vals": gen_vals(ch)}
+        case = {"kind": "eval", "expr": e, "vals": gen_vals(ch)}
+        side = ch.side("constant-term")
+        return with_constant(case, side) if side.flag(0.25) else case
     if kind == "cmp":
         eps = float(EPS)
         mag = ch.choice([1.0, 1000.0, 1000000.0, 0.0, 37.25])
@@ -381,8 +402,10 @@ def gen(ch, tier):
             lhs, rhs = ["g"], repr(y)
         return {"kind": "cmp", "op": op, "lhs": lhs, "rhs": rhs, "vals": vals}
     if kind == "assign":
-        return {"kind": "assign", "aop": ch.choice(list(pddl.ASSIGN_OPS)), "target": list(ch.choice(FTERMS)),
+        case = {"kind": "assign", "aop": ch.choice(list(pddl.ASSIGN_OPS)), "target": list(ch.choice(FTERMS)),
                 "expr": gen_expr(ch, 2), "vals": gen_vals(ch)}
+        side = ch.side("constant-term")
+        return with_constant(case, side) if side.flag(0.25) and not isinstance(case["expr"], str) else case
     e = gen_expr(ch, 3)
     if isinstance(e, str):
         e = ["*", e, ["g"]]
